@@ -166,6 +166,15 @@ def run(ctx):
             ctx.violation(f'case-{i}-hang.json', dict(argv=[repr(x) for x in o.argv]), 'xcp hung')
             continue
         # ---- correspondence with the model
+        # F13 scenarios in which TWO destination links lead to one file are written through by two workers: which content
+        # survives depends on the schedule (F13 x F10), so the sequential model's answer is only one of the possible ones
+        if o.res.cls == '0':
+            import os as _os
+            bef = treerun.decode(o.before)
+            tg = [_os.path.normpath(_os.path.dirname(d) + b'/' + bytes.fromhex(bef[d][2:])) for d in expected_image(sc, o.before) if bef.get(d, '').startswith('l:')]
+            if len(tg) != len(set(tg)):
+                ctx.count('correspondence_skipped.two_destination_links_to_one_file')
+                continue
         ctx.cov['traces_validated_against_impl'] += 1
         impl_ex = 'ok' if o.res.cls == '0' else 'err'
         if ex != impl_ex or (ex == 'ok' and toks != o.after):
